@@ -323,7 +323,14 @@ func BuildCte(query *Query, expr *sqlparser.With) error {
 	for _, cte := range expr.CTEs {
 		copy := *cte
 		evaluating := false
+		evaluated := false
+		var rows any
 		query.data[copy.ID.String()] = CteEvaluation(func() (any, error) {
+			// evaluated once; the entry in the scope stays a CteEvaluation, so that
+			// `*` never takes the rows of a CTE for a key of the document
+			if evaluated {
+				return rows, nil
+			}
 			// a CTE whose body reads the CTE itself, directly or through another CTE,
 			// would be evaluated without end
 			if evaluating {
@@ -339,7 +346,7 @@ func BuildCte(query *Query, expr *sqlparser.With) error {
 			if err != nil {
 				return nil, err
 			}
-			query.data[copy.ID.String()] = rs
+			rows, evaluated = rs, true
 			return rs, nil
 		})
 	}
